@@ -157,7 +157,10 @@ class SocketTransportSink(ClientMessageSink):
       except gevent.Timeout: # pylint: disable=E0712
         err = TimeoutError()
         self._socket.close()
-        self._socket.open()
+        try:
+          self._socket.open()
+        except Exception as ex:
+          self._Fault(ex)
         self._processing = None
         sink_stack.AsyncProcessResponseMessage(MethodReturnMessage(error=err))
       except Exception as ex:
